@@ -101,7 +101,8 @@ func (s *Slice) String() string {
 }
 
 // validateSlices refuses the requests the slicing of the underlying tensor library cannot
-// answer: negative (or zero) steps.
+// answer: negative (or zero) steps, and ranges that select no elements (tensors with an empty
+// dimension are not supported).
 func (s *Slice) validateSlices(starts, ends, steps, axes []int, shape tensor.Shape) error {
 	nDims := len(shape)
 
@@ -120,6 +121,10 @@ func (s *Slice) validateSlices(starts, ends, steps, axes []int, shape tensor.Sha
 
 		if steps[i] < 1 {
 			return ops.ErrInvalidInput("only positive steps are supported", s)
+		}
+
+		if starts[i] >= 0 && ends[i] >= 0 && (starts[i] >= ends[i] || starts[i] >= shape[ax]) {
+			return ops.ErrInvalidInput("the slice selects no elements, empty tensors are not supported", s)
 		}
 	}
 
